@@ -716,3 +716,33 @@ pub fn snap_digest(s: &Snapshot, root: &str) -> u64 {
     }
     h
 }
+
+/// Copy a whole tree (regular files, directories, symlinks; permissions of files kept).
+/// Absolute symlink targets below `src` are re-anchored below `dst`, as a user copying a
+/// checkout with `cp -a` and fixing up its links would have it.
+pub fn copy_tree(src: &Path, dst: &Path) {
+    fn rec(from: &Path, to: &Path, src_root: &Path, dst_root: &Path) {
+        fs::create_dir_all(to).expect("copy_tree: mkdir");
+        let mut entries: Vec<_> = fs::read_dir(from).expect("copy_tree: read_dir").flatten().collect();
+        entries.sort_by_key(|e| e.file_name());
+        for e in entries {
+            let ft = e.file_type().expect("copy_tree: file_type");
+            let a = e.path();
+            let b = to.join(e.file_name());
+            if ft.is_symlink() {
+                let t = fs::read_link(&a).expect("copy_tree: read_link");
+                let t2 = match t.strip_prefix(src_root) {
+                    Ok(rel) => dst_root.join(rel),
+                    Err(_) => t,
+                };
+                std::os::unix::fs::symlink(&t2, &b).expect("copy_tree: symlink");
+            } else if ft.is_dir() {
+                rec(&a, &b, src_root, dst_root);
+            } else {
+                fs::copy(&a, &b).expect("copy_tree: copy");
+            }
+        }
+    }
+    let _ = fs::remove_dir_all(dst);
+    rec(src, dst, src, dst);
+}
